@@ -4,6 +4,7 @@ package main
 // calls replaced by contracts (or inlined when un-contracted and in-module).
 
 import (
+	"go/ast"
 	"fmt"
 	"go/constant"
 	"go/token"
@@ -22,6 +23,7 @@ type FnExec struct {
 	pathCap   int
 	heapSorts map[string]string
 	vacSeen   map[string]int
+	lemmaName string // set while a lemma is checked
 	ords      map[*ssa.Function]map[ssa.Instruction]string
 	// evidence notes
 	inlined  map[string]bool
@@ -497,6 +499,7 @@ func (fx *FnExec) evalPhis(st *State, b *ssa.BasicBlock, pred *ssa.BasicBlock) {
 		}
 		vs = append(vs, p)
 	}
+	var named map[string]ssa.Value
 	for _, p := range vs {
 		st.vals[p.phi] = p.t
 		if p.lv != nil {
@@ -504,6 +507,19 @@ func (fx *FnExec) evalPhis(st *State, b *ssa.BasicBlock, pred *ssa.BasicBlock) {
 		} else {
 			delete(st.lvs, p.phi)
 		}
+		if p.phi.Comment != "" {
+			// the source variable of that name now denotes this phi
+			if named == nil {
+				named = make(map[string]ssa.Value, len(st.names)+len(vs))
+				for k, v := range st.names {
+					named[k] = v
+				}
+			}
+			named[fmt.Sprintf("%p|%s", p.phi.Parent(), p.phi.Comment)] = p.phi
+		}
+	}
+	if named != nil {
+		st.names = named
 	}
 }
 
@@ -521,6 +537,17 @@ func (fx *FnExec) step(st *State, fr *frame, ins ssa.Instruction) bool {
 	}
 	switch x := ins.(type) {
 	case *ssa.DebugRef:
+		// remember, per source name, the SSA value it denotes at this point of the path
+		if id, ok := x.Expr.(*ast.Ident); ok && !x.IsAddr {
+			if _, isConst := x.X.(*ssa.Const); !isConst {
+				m := make(map[string]ssa.Value, len(st.names)+1)
+				for k, v := range st.names {
+					m[k] = v
+				}
+				m[fmt.Sprintf("%p|%s", x.Parent(), id.Name)] = x.X
+				st.names = m
+			}
+		}
 		return true
 	case *ssa.Alloc:
 		fx.doAlloc(st, x)
